@@ -337,6 +337,11 @@ class MailDriver:
                 if self._resyncing <= 0:
                     break
                 await asyncio.sleep(0.001)
+            if act in ("Delete", "Create", "Rename", "Restart"):
+                # objects of mailboxes that are gone are collected now, not whenever the collector
+                # gets to them (Mailbox.__del__ touches the server's table: see repo fix 1df8425)
+                import gc
+                gc.collect()
         finally:
             self._cmd_depth -= 1
         adm = self._admit.pop(sess, 0)
